@@ -1,6 +1,7 @@
 """
 This module contains the structures used to represent the messages in the protocol.
 """
+import copy
 import inspect
 import json
 from enum import Enum
@@ -128,8 +129,9 @@ class _Record(TypeDefinition):
             return self.values[key]
         except KeyError:
             default = field.type.default_value if field.default_value is None else field.default_value
-            # a class-level list must never be handed out: every read gets a list of its own
-            return list(default) if isinstance(default, list) else default
+            # a class-level list must never be handed out: every read gets a list of its own,
+            # all the way down (the rows of a two-dimensional default are lists too)
+            return copy.deepcopy(default) if isinstance(default, list) else default
 
     @staticmethod
     def get_value(any_: Any) -> dict[str, Any] | list[dict[str, Any]] | Any:
